@@ -259,3 +259,118 @@ pub fn pattern_matches(seq: &[Pat], hops: &[Hop]) -> bool {
     }
     nullable(&r)
 }
+
+// ---- second reference matcher: Thompson NFA with epsilon closure --------------------------------
+// Linear in the size of the pattern (no duplication of sub-patterns, unlike the derivative
+// construction, whose `Plus` doubles its operand); used for deeply nested repetition operators.
+
+struct Nfa {
+    /// per state: epsilon successors and at most one labelled successor
+    eps: Vec<Vec<usize>>,
+    lab: Vec<Option<(Pred, usize)>>,
+}
+impl Nfa {
+    fn state(&mut self) -> usize {
+        self.eps.push(vec![]);
+        self.lab.push(None);
+        self.eps.len() - 1
+    }
+    /// builds the fragment for `p`; returns (entry, exit)
+    fn build(&mut self, p: &Pat) -> (usize, usize) {
+        // explicit stack: patterns may be nested thousands of levels deep
+        enum Work<'a> {
+            Visit(&'a Pat),
+            Build(&'a Pat),
+        }
+        let mut work = vec![Work::Visit(p)];
+        let mut out: Vec<(usize, usize)> = vec![];
+        while let Some(w) = work.pop() {
+            match w {
+                Work::Visit(q) => {
+                    work.push(Work::Build(q));
+                    match q {
+                        Pat::P(_) => {}
+                        Pat::Or(a, b) => {
+                            work.push(Work::Visit(b));
+                            work.push(Work::Visit(a));
+                        }
+                        Pat::Opt(a) | Pat::Plus(a) | Pat::Star(a) => work.push(Work::Visit(a)),
+                    }
+                }
+                Work::Build(q) => {
+                    let (s, e) = (self.state(), self.state());
+                    match q {
+                        Pat::P(pr) => self.lab[s] = Some((*pr, e)),
+                        Pat::Or(_, _) => {
+                            let (bs, be) = out.pop().unwrap();
+                            let (as_, ae) = out.pop().unwrap();
+                            self.eps[s].extend([as_, bs]);
+                            self.eps[ae].push(e);
+                            self.eps[be].push(e);
+                        }
+                        Pat::Opt(_) => {
+                            let (is, ie) = out.pop().unwrap();
+                            self.eps[s].extend([is, e]);
+                            self.eps[ie].push(e);
+                        }
+                        Pat::Plus(_) => {
+                            let (is, ie) = out.pop().unwrap();
+                            self.eps[s].push(is);
+                            self.eps[ie].extend([is, e]);
+                        }
+                        Pat::Star(_) => {
+                            let (is, ie) = out.pop().unwrap();
+                            self.eps[s].extend([is, e]);
+                            self.eps[ie].extend([is, e]);
+                        }
+                    }
+                    out.push((s, e));
+                }
+            }
+        }
+        out.pop().unwrap()
+    }
+    fn closure(&self, set: &mut Vec<bool>, from: Vec<usize>) {
+        let mut stack = from;
+        while let Some(s) = stack.pop() {
+            if set[s] {
+                continue;
+            }
+            set[s] = true;
+            stack.extend(self.eps[s].iter().copied());
+        }
+    }
+}
+
+/// Same question as `pattern_matches`, answered by NFA simulation.
+pub fn pattern_matches_nfa(seq: &[Pat], hops: &[Hop]) -> bool {
+    let mut n = Nfa { eps: vec![], lab: vec![] };
+    let start = n.state();
+    let mut last = start;
+    for p in seq {
+        let (s, e) = n.build(p);
+        n.eps[last].push(s);
+        last = e;
+    }
+    let mut cur = vec![false; n.eps.len()];
+    n.closure(&mut cur, vec![start]);
+    for h in hops {
+        let mut next_from = vec![];
+        for (s, on) in cur.iter().enumerate() {
+            if *on {
+                if let Some((p, t)) = &n.lab[s] {
+                    if p.matches(h) {
+                        next_from.push(*t);
+                    }
+                }
+            }
+        }
+        let mut next = vec![false; n.eps.len()];
+        n.closure(&mut next, next_from);
+        cur = next;
+        if !cur.iter().any(|x| *x) {
+            return false;
+        }
+    }
+    cur[last]
+}
